@@ -5,6 +5,7 @@ import (
 	"go/ast"
 	"go/token"
 	"go/types"
+	"sort"
 	"strings"
 
 	"golang.org/x/tools/go/cfg"
@@ -3858,4 +3859,651 @@ func checkLabelVersionSwitch(c *Ctx, rule string) {
 	c.check(ok, rule, f.ID, p.Pos(f.Decl.Pos()),
 		"GetVersion(path, version) iff a version is set, Get(path) otherwise",
 		"Label.DownloadDescriptor: "+why+": a plain resolution no longer reads the label's current value (or a versioned one reads another object)")
+}
+
+// checkLeafReadLoopShape (C01, C03): the loop of readLeaf that fills a pooled buffer from the blob reader. With the
+// roles n (count of the Read), e (its error), buf (the slice the read was appended after), the loop has exactly these
+// three tests, by role: an error other than io.EOF fails the read (`e != nil && e != io.EOF` → failure return); the
+// count is accounted as `Slice(0, len(buf)+n)`; the loop is left when `e == io.EOF || n == 0`. Any other polarity either
+// serves a truncated leaf or swallows a backend error (silently when hash verification is off).
+func checkLeafReadLoopShape(c *Ctx, rule string) {
+	p := c.P
+	f := p.Func("pkg/cafs.readLeafFunc")
+	info := f.Info()
+	found := false
+	for _, b := range p.BodiesOf(f) {
+		var loop *ast.ForStmt
+		var readAs *ast.AssignStmt
+		ast.Inspect(b.Block, func(nd ast.Node) bool {
+			if l, ok := nd.(*ast.FuncLit); ok && l != b.Lit {
+				return false
+			}
+			fs, ok := nd.(*ast.ForStmt)
+			if !ok {
+				return true
+			}
+			for _, st := range fs.Body.List {
+				as, ok := st.(*ast.AssignStmt)
+				if !ok || len(as.Lhs) != 2 || len(as.Rhs) != 1 {
+					continue
+				}
+				if call, ok := ast.Unparen(as.Rhs[0]).(*ast.CallExpr); ok && calleeID(info, call) == "io.Reader.Read" {
+					loop, readAs = fs, as
+				}
+			}
+			return true
+		})
+		if loop == nil {
+			continue
+		}
+		found = true
+		roles := map[types.Object]string{}
+		if id, ok := readAs.Lhs[0].(*ast.Ident); ok {
+			roles[info.ObjectOf(id)] = "n"
+		}
+		if id, ok := readAs.Lhs[1].(*ast.Ident); ok {
+			roles[info.ObjectOf(id)] = "e"
+		}
+		// buf: the variable sliced in the Read argument
+		rc := ast.Unparen(readAs.Rhs[0]).(*ast.CallExpr)
+		if se, ok := ast.Unparen(rc.Args[0]).(*ast.SliceExpr); ok {
+			if id, ok := ast.Unparen(se.X).(*ast.Ident); ok {
+				roles[info.ObjectOf(id)] = "buf"
+			}
+		}
+		norm := func(e ast.Expr, split token.Token) string {
+			var parts []string
+			var walk func(x ast.Expr)
+			walk = func(x ast.Expr) {
+				x = ast.Unparen(x)
+				if be, ok := x.(*ast.BinaryExpr); ok && be.Op == split {
+					walk(be.X)
+					walk(be.Y)
+					return
+				}
+				parts = append(parts, roleString(info, x, roles))
+			}
+			walk(e)
+			sort.Strings(parts)
+			return strings.Join(parts, " "+split.String()+" ")
+		}
+		errTest, exitTest, account := "", "", ""
+		readSeen := false
+		for _, st := range loop.Body.List {
+			if st == ast.Stmt(readAs) {
+				readSeen = true
+				continue
+			}
+			if !readSeen {
+				continue
+			}
+			switch x := st.(type) {
+			case *ast.IfStmt:
+				if len(x.Body.List) == 0 {
+					continue
+				}
+				switch last := x.Body.List[len(x.Body.List)-1].(type) {
+				case *ast.ReturnStmt:
+					if b.classifyReturn(last) == retFailure {
+						errTest = norm(x.Cond, token.LAND)
+					}
+				case *ast.BranchStmt:
+					if last.Tok == token.BREAK {
+						exitTest = norm(x.Cond, token.LOR)
+					}
+				}
+			case *ast.AssignStmt, *ast.ExprStmt:
+				ast.Inspect(x, func(m ast.Node) bool {
+					if call, ok := m.(*ast.CallExpr); ok && strings.HasSuffix(calleeID(info, call), "LeafBuffer.Slice") && len(call.Args) == 2 {
+						account = roleString(info, call.Args[0], roles) + "," + roleString(info, call.Args[1], roles)
+					}
+					return true
+				})
+			}
+		}
+		got := "error: " + errTest + " | account: " + account + " | exit: " + exitTest
+		want := "error: e!=io.EOF && e!=nil | account: 0,len(buf)+n | exit: e==io.EOF || n==0"
+		c.check(got == want, rule, b.Key(), p.Pos(loop.Pos()), got,
+			"the leaf read loop is ["+got+"], expected ["+want+"]: a backend error is taken for the end of the leaf, a count is dropped or mis-added, or the loop stops before the reader is exhausted — the leaf served is truncated or misplaced (an error only when hash verification is on)")
+	}
+	if !found {
+		c.softUndecided("%s: readLeafFunc no longer fills its buffer with a Read loop", rule)
+	}
+}
+
+// checkPrefetchHandoff (C01, C15): doPrefetch returns (buffer, done, err). readLeaf hands the buffer back as complete
+// (`return lb, true, nil`) exactly where done is true, returns "nothing to do" (`nil, false, nil`) exactly where the
+// buffer is nil, and otherwise goes on to fill the (empty) buffer itself. With the tests inverted a buffer that was not
+// filled is served as a complete leaf, or a filled one is filled again after its end.
+func checkPrefetchHandoff(c *Ctx, rule string) {
+	p := c.P
+	f := p.Func("pkg/cafs.readLeafFunc")
+	info := f.Info()
+	found := false
+	for _, b := range p.BodiesOf(f) {
+		var as *ast.AssignStmt
+		ast.Inspect(b.Block, func(nd ast.Node) bool {
+			if l, ok := nd.(*ast.FuncLit); ok && l != b.Lit {
+				return false
+			}
+			if a, ok := nd.(*ast.AssignStmt); ok && len(a.Lhs) == 3 && len(a.Rhs) == 1 {
+				if call, ok := ast.Unparen(a.Rhs[0]).(*ast.CallExpr); ok && calleeID(info, call) == "pkg/cafs.chunkReader.doPrefetch" {
+					as = a
+				}
+			}
+			return true
+		})
+		if as == nil {
+			continue
+		}
+		found = true
+		roles := map[types.Object]string{}
+		for i, nm := range []string{"lb", "done", "err"} {
+			if id, ok := as.Lhs[i].(*ast.Ident); ok {
+				roles[info.ObjectOf(id)] = nm
+			}
+		}
+		var rows []string
+		blk, _ := f.parentOf(as).(*ast.BlockStmt)
+		if blk == nil {
+			continue
+		}
+		after := false
+		for _, st := range blk.List {
+			if st == ast.Stmt(as) {
+				after = true
+				continue
+			}
+			if !after {
+				continue
+			}
+			ifs, ok := st.(*ast.IfStmt)
+			if !ok || len(ifs.Body.List) == 0 {
+				continue
+			}
+			if ret, ok := ifs.Body.List[len(ifs.Body.List)-1].(*ast.ReturnStmt); ok && len(ret.Results) == 3 {
+				rows = append(rows, roleString(info, ifs.Cond, roles)+" => "+roleString(info, ret.Results[0], roles)+","+roleString(info, ret.Results[1], roles)+","+roleString(info, ret.Results[2], roles))
+			}
+		}
+		got := strings.Join(rows, " | ")
+		want := "err!=nil => nil,false,err | lb==nil => nil,false,nil | done => lb,true,nil"
+		c.check(got == want, rule, b.Key(), p.Pos(as.Pos()), got,
+			"after doPrefetch readLeaf returns ["+got+"], expected ["+want+"]: a buffer a prefetcher did not complete is handed back as a complete leaf, or a completed one is read into again")
+	}
+	if !found {
+		c.softUndecided("%s: readLeafFunc no longer calls doPrefetch", rule)
+	}
+}
+
+// checkReadAtLoopShape (C01, C17): the leaf loop of ReadAt, by role (data = the caller's buffer, off = the offset
+// parameter, index/offset = calculateKeyAndOffset(off, leafSize), got = the named byte count, leaf = the bytes of the
+// current leaf buffer). Each leaf is copied as `got += copy(data[got:], leaf[offset:])`; then the loop moves to the next
+// leaf (`index++`, `offset = 0`) and ends when `got == len(data) || index >= len(keys)`. Any other form re-serves a
+// leaf, starts the next leaf at the first leaf's offset, copies the wrong way round (into the cached leaf) or stops short.
+func checkReadAtLoopShape(c *Ctx, rule string) {
+	p := c.P
+	f := p.Func("pkg/cafs.chunkReader.ReadAt")
+	info := f.Info()
+	sig := f.Obj.Type().(*types.Signature)
+	roles := map[types.Object]string{sig.Params().At(0): "data", sig.Params().At(1): "off"}
+	if sig.Recv() != nil {
+		roles[sig.Recv()] = "r"
+	}
+	if sig.Results().Len() > 0 && sig.Results().At(0).Name() != "" {
+		roles[sig.Results().At(0)] = "got"
+	}
+	if vs := lhsVars(info, f.Decl.Body, func(e ast.Expr) bool {
+		call, ok := ast.Unparen(e).(*ast.CallExpr)
+		return ok && calleeID(info, call) == "pkg/cafs.calculateKeyAndOffset"
+	}); len(vs) == 2 && vs[0] != nil && vs[1] != nil {
+		roles[vs[0]], roles[vs[1]] = "index", "offset"
+	}
+	// want: len(data) variable
+	if vs := lhsVars(info, f.Decl.Body, func(e ast.Expr) bool {
+		call, ok := ast.Unparen(e).(*ast.CallExpr)
+		return ok && calleeID(info, call) == "builtin.len" && len(call.Args) == 1 && roleString(info, call.Args[0], roles) == "data"
+	}); len(vs) == 1 && vs[0] != nil {
+		roles[vs[0]] = "want"
+	}
+	var loop *ast.ForStmt
+	for _, st := range f.Decl.Body.List {
+		if l, ok := st.(*ast.ForStmt); ok && l.Cond == nil {
+			loop = l
+		}
+	}
+	if loop == nil {
+		c.softUndecided("%s: ReadAt no longer has its leaf loop", rule)
+		return
+	}
+	// leaf: a variable bound to <buffer>.Bytes() inside the loop
+	ast.Inspect(loop, func(nd ast.Node) bool {
+		as, ok := nd.(*ast.AssignStmt)
+		if !ok || len(as.Lhs) != 1 || len(as.Rhs) != 1 {
+			return true
+		}
+		if call, ok := ast.Unparen(as.Rhs[0]).(*ast.CallExpr); ok && strings.HasSuffix(calleeID(info, call), "LeafBuffer.Bytes") {
+			if id, ok := as.Lhs[0].(*ast.Ident); ok {
+				roles[info.ObjectOf(id)] = "leaf"
+			}
+		}
+		return true
+	})
+	var copies, steps []string
+	exit := ""
+	ast.Inspect(loop.Body, func(nd ast.Node) bool {
+		switch x := nd.(type) {
+		case *ast.FuncLit:
+			return false
+		case *ast.AssignStmt:
+			if len(x.Lhs) == 1 && len(x.Rhs) == 1 {
+				if call, ok := ast.Unparen(x.Rhs[0]).(*ast.CallExpr); ok && calleeID(info, call) == "builtin.copy" {
+					copies = append(copies, roleString(info, x.Lhs[0], roles)+x.Tok.String()+roleString(info, call, roles))
+				}
+				if r := roleString(info, x.Lhs[0], roles); (r == "offset" || r == "index") && f.parentOf(x) == ast.Node(loop.Body) {
+					steps = append(steps, r+x.Tok.String()+roleString(info, x.Rhs[0], roles))
+				}
+			}
+		case *ast.IncDecStmt:
+			if r := roleString(info, x.X, roles); (r == "offset" || r == "index") && f.parentOf(x) == ast.Node(loop.Body) {
+				steps = append(steps, r+x.Tok.String())
+			}
+		case *ast.IfStmt:
+			if f.parentOf(x) == ast.Node(loop.Body) && len(x.Body.List) == 1 {
+				if _, isRet := x.Body.List[0].(*ast.ReturnStmt); isRet {
+					d := roleString(info, x.Cond, roles)
+					if strings.Contains(d, "want") || strings.Contains(d, "len(") {
+						exit = d
+					}
+				}
+			}
+		}
+		return true
+	})
+	sort.Strings(steps)
+	got := "copy: " + strings.Join(copies, ";") + " | step: " + strings.Join(steps, ";") + " | exit: " + exit
+	want := "copy: got+=copy(data[got:],leaf[offset:]) | step: index++;offset=0 | exit: got==want||index>=len(r.keys)"
+	c.check(got == want, rule, f.ID, p.Pos(loop.Pos()), got,
+		"the leaf loop of ReadAt is ["+got+"], expected ["+want+"]: a read spanning several leaves re-serves a leaf, starts the next leaf at the wrong offset, copies into the cached leaf instead of the caller's buffer, or stops short without an error")
+}
+
+// checkWriterWriteShape (C01, C02): fsWriter.Write, by role (p = the caller's bytes, done = bytes consumed so far,
+// c = bytes taken by one copy, buf/offset = the leaf being assembled). Each turn copies `c := copy(buf[offset:], p[done:])`,
+// advances both cursors by c, returns (len(p), nil) when done == len(p), and hands the leaf over when offset == len(buf).
+// A cursor that does not move, or moves by something else, overwrites the leaf in place: the stored content (and its
+// key) silently differs from what was written.
+func checkWriterWriteShape(c *Ctx, rule string) {
+	p := c.P
+	f := p.Func("pkg/cafs.fsWriter.Write")
+	info := f.Info()
+	sig := f.Obj.Type().(*types.Signature)
+	roles := map[types.Object]string{sig.Params().At(0): "p", sig.Recv(): "w"}
+	var copyAs *ast.AssignStmt
+	ast.Inspect(f.Decl.Body, func(nd ast.Node) bool {
+		if as, ok := nd.(*ast.AssignStmt); ok && len(as.Lhs) == 1 && len(as.Rhs) == 1 {
+			if call, ok := ast.Unparen(as.Rhs[0]).(*ast.CallExpr); ok && calleeID(info, call) == "builtin.copy" {
+				copyAs = as
+			}
+		}
+		return true
+	})
+	if copyAs == nil {
+		c.softUndecided("%s: fsWriter.Write no longer copies its argument into the leaf buffer", rule)
+		return
+	}
+	if id, ok := copyAs.Lhs[0].(*ast.Ident); ok {
+		roles[info.ObjectOf(id)] = "c"
+	}
+	call := ast.Unparen(copyAs.Rhs[0]).(*ast.CallExpr)
+	// done: the low bound of the slice of p
+	if se, ok := ast.Unparen(call.Args[1]).(*ast.SliceExpr); ok && se.Low != nil {
+		if id, ok := ast.Unparen(se.Low).(*ast.Ident); ok {
+			roles[info.ObjectOf(id)] = "done"
+		}
+	}
+	var rows []string
+	rows = append(rows, "c="+roleString(info, call, roles))
+	blk, _ := f.parentOf(copyAs).(*ast.BlockStmt)
+	if blk == nil {
+		return
+	}
+	for _, st := range blk.List {
+		switch x := st.(type) {
+		case *ast.AssignStmt:
+			if x != copyAs && len(x.Lhs) == 1 && len(x.Rhs) == 1 && (x.Tok == token.ADD_ASSIGN || x.Tok == token.ASSIGN) {
+				rows = append(rows, roleString(info, x.Lhs[0], roles)+x.Tok.String()+roleString(info, x.Rhs[0], roles))
+			}
+		case *ast.IfStmt:
+			if len(x.Body.List) > 0 {
+				if ret, ok := x.Body.List[len(x.Body.List)-1].(*ast.ReturnStmt); ok && len(ret.Results) == 2 {
+					rows = append(rows, "if "+roleString(info, x.Cond, roles)+" return "+roleString(info, ret.Results[0], roles)+","+roleString(info, ret.Results[1], roles))
+				} else {
+					rows = append(rows, "if "+roleString(info, x.Cond, roles)+" flush")
+				}
+			}
+		}
+	}
+	got := strings.Join(rows, " ; ")
+	want := "c=copy(w.buf[w.offset:],p[done:]) ; if done==len(p) return len(p),nil ; w.offset+=c ; done+=c ; if w.offset==len(w.buf) flush"
+	c.check(got == want, rule, f.ID, p.Pos(copyAs.Pos()), got,
+		"fsWriter.Write is ["+got+"], expected ["+want+"]: a cursor that does not advance by the bytes copied (or a wrong completion / hand-over test) overwrites or skips part of a leaf — the object stored under the returned key is not the content written")
+}
+
+// checkWriterFlushShape (C01, C02): Flush fails when a leaf flush failed (`len(w.errors) != 0` → failure return) before
+// it computes anything from the leaf keys, and serialises the keys as `copy(out[i*KeySize:(i+1)*KeySize], key[:])` —
+// destination the output buffer, source the key.
+func checkWriterFlushShape(c *Ctx, rule string) {
+	p := c.P
+	f := p.Func("pkg/cafs.fsWriter.Flush")
+	info := f.Info()
+	b := p.BodyOf(f)
+	// error test
+	okErr := false
+	errCond := ""
+	for _, st := range f.Decl.Body.List {
+		ifs, ok := st.(*ast.IfStmt)
+		if !ok || len(ifs.Body.List) == 0 {
+			continue
+		}
+		ret, ok := ifs.Body.List[len(ifs.Body.List)-1].(*ast.ReturnStmt)
+		if !ok || b.classifyReturn(ret) != retFailure {
+			continue
+		}
+		d := describeExpr(f, ifs.Cond, 0)
+		if strings.Contains(d, "recv.errors") {
+			errCond = d
+			okErr = d == "(call:builtin.len(recv.errors)!=const:0)" || d == "(call:builtin.len(recv.errors)>const:0)"
+		}
+	}
+	c.check(okErr, rule, f.ID+":errors-test", p.Pos(f.Decl.Pos()),
+		"a collected flush error fails Flush",
+		"Flush tests its collected errors with `"+errCond+"`: a failed leaf write no longer fails the Put, which returns a key over fewer (or other) leaves")
+	// key serialisation: every copy whose source or destination is a Key
+	nCopy := 0
+	ast.Inspect(f.Decl.Body, func(nd ast.Node) bool {
+		call, ok := nd.(*ast.CallExpr)
+		if !ok || calleeID(info, call) != "builtin.copy" {
+			return true
+		}
+		isKeySlice := func(e ast.Expr) bool {
+			if se, ok := ast.Unparen(e).(*ast.SliceExpr); ok {
+				return namedTypeID(info.TypeOf(se.X)) == "pkg/cafs.Key"
+			}
+			return false
+		}
+		if isKeySlice(call.Args[0]) || isKeySlice(call.Args[1]) {
+			nCopy++
+			c.check(isKeySlice(call.Args[1]) && !isKeySlice(call.Args[0]), rule, callKey(f, call), p.Pos(call.Pos()),
+				"leaf keys are copied into the output buffer",
+				"Flush copies `"+exprString(call.Args[1])+"` into `"+exprString(call.Args[0])+"`: the key list of the root blob is written the wrong way round (into a loop copy of the key): every root blob holds zeroes instead of its leaf keys")
+		}
+		return true
+	})
+	if nCopy == 0 {
+		c.fail(rule, f.ID+":keys-copied", p.Pos(f.Decl.Pos()), "Flush no longer serialises the leaf keys")
+	}
+}
+
+// checkCopyIntoRangeCopy (generic, contradiction rule): `copy(x[..], …)` where x is the value variable of a range loop
+// over arrays writes into the per-iteration copy and is lost. (A slice element shares its backing array; an array
+// element does not.)
+func checkCopyIntoRangeCopy(c *Ctx, rule string, pkgs ...string) int {
+	p := c.P
+	n := 0
+	for _, pk := range pkgs {
+		for _, f := range p.FuncsIn(pk) {
+			if f.Decl.Body == nil {
+				continue
+			}
+			info := f.Info()
+			ast.Inspect(f.Decl.Body, func(nd ast.Node) bool {
+				rs, ok := nd.(*ast.RangeStmt)
+				if !ok || rs.Value == nil {
+					return true
+				}
+				vid, ok := rs.Value.(*ast.Ident)
+				if !ok {
+					return true
+				}
+				v := info.ObjectOf(vid)
+				if v == nil {
+					return true
+				}
+				if _, isArr := v.Type().Underlying().(*types.Array); !isArr {
+					return true
+				}
+				ast.Inspect(rs.Body, func(m ast.Node) bool {
+					call, ok := m.(*ast.CallExpr)
+					if !ok || calleeID(info, call) != "builtin.copy" {
+						return true
+					}
+					n++
+					if se, ok := ast.Unparen(call.Args[0]).(*ast.SliceExpr); ok {
+						if id, ok := ast.Unparen(se.X).(*ast.Ident); ok && info.Uses[id] == v {
+							c.fail(rule, callKey(f, call), p.Pos(call.Pos()), "copy writes into `"+id.Name+"`, the per-iteration copy of an array element: the bytes are lost and the intended destination keeps its zero value")
+						}
+					}
+					return true
+				})
+				return true
+			})
+		}
+	}
+	return n
+}
+
+// roleStmts renders a statement list canonically with roles (see roleString): assignments, if/else, range loops,
+// branch statements, returns, inc/dec, expression statements. Used by the table rules over small algorithmic cores.
+func roleStmts(info *types.Info, list []ast.Stmt, roles map[types.Object]string) string {
+	var out []string
+	for _, st := range list {
+		switch x := st.(type) {
+		case *ast.AssignStmt:
+			var l, r []string
+			for _, e := range x.Lhs {
+				l = append(l, roleString(info, e, roles))
+			}
+			for _, e := range x.Rhs {
+				r = append(r, roleString(info, e, roles))
+			}
+			out = append(out, strings.Join(l, ",")+x.Tok.String()+strings.Join(r, ","))
+		case *ast.IfStmt:
+			s := "if " + roleString(info, x.Cond, roles) + " {" + roleStmts(info, x.Body.List, roles) + "}"
+			if x.Init != nil {
+				s = "if " + roleStmts(info, []ast.Stmt{x.Init}, roles) + "; " + roleString(info, x.Cond, roles) + " {" + roleStmts(info, x.Body.List, roles) + "}"
+			}
+			switch e := x.Else.(type) {
+			case *ast.BlockStmt:
+				s += " else {" + roleStmts(info, e.List, roles) + "}"
+			case *ast.IfStmt:
+				s += " else " + roleStmts(info, []ast.Stmt{e}, roles)
+			}
+			out = append(out, s)
+		case *ast.RangeStmt:
+			k, v := "_", "_"
+			if x.Key != nil {
+				k = roleString(info, x.Key, roles)
+			}
+			if x.Value != nil {
+				v = roleString(info, x.Value, roles)
+			}
+			out = append(out, "for "+k+","+v+" range "+roleString(info, x.X, roles)+" {"+roleStmts(info, x.Body.List, roles)+"}")
+		case *ast.BranchStmt:
+			out = append(out, x.Tok.String())
+		case *ast.ReturnStmt:
+			var r []string
+			for _, e := range x.Results {
+				r = append(r, roleString(info, e, roles))
+			}
+			out = append(out, "return "+strings.Join(r, ","))
+		case *ast.IncDecStmt:
+			out = append(out, roleString(info, x.X, roles)+x.Tok.String())
+		case *ast.ExprStmt:
+			out = append(out, roleString(info, x.X, roles))
+		case *ast.DeclStmt:
+			out = append(out, "decl")
+		default:
+			out = append(out, "stmt")
+		}
+	}
+	return strings.Join(out, "; ")
+}
+
+// checkKeysPrefixAlgorithm (C16): the three small algorithms inside localfs KeysPrefix, rendered by role (never by
+// name): (1) the walk callback keeps a path iff it has the prefix, truncates it after the first delimiter found past the
+// prefix when a delimiter is given, strips the leading '/' for relative prefixes and appends it; (2) truncated matches
+// are de-duplicated when a delimiter is given; (3) the page starts at 0 for an empty token, at the position of the token
+// otherwise, and an unknown token yields an empty page.
+func checkKeysPrefixAlgorithm(c *Ctx, rule string) {
+	p := c.P
+	f := p.Func("pkg/storage/localfs.localFS.KeysPrefix")
+	info := f.Info()
+	sig := f.Obj.Type().(*types.Signature)
+	roles := map[types.Object]string{sig.Recv(): "l", sig.Params().At(1): "token", sig.Params().At(2): "prefix", sig.Params().At(3): "delimiter", sig.Params().At(4): "count"}
+	// walk callback
+	var cb *ast.FuncLit
+	for _, l := range f.Lits {
+		if s, ok := info.TypeOf(l).(*types.Signature); ok && s.Params().Len() == 3 {
+			cb = l
+		}
+	}
+	if cb == nil {
+		c.softUndecided("%s: KeysPrefix no longer walks with a callback", rule)
+		return
+	}
+	var names []*ast.Ident
+	for _, fl := range cb.Type.Params.List {
+		names = append(names, fl.Names...)
+	}
+	for i, nm := range []string{"pth", "info", "werr"} {
+		if i < len(names) {
+			roles[info.Defs[names[i]]] = nm
+		}
+	}
+	// noRoot: defined as !HasPrefix(prefix, "/")
+	for _, v := range lhsVars(info, f.Decl.Body, func(e ast.Expr) bool {
+		u, ok := ast.Unparen(e).(*ast.UnaryExpr)
+		if !ok || u.Op != token.NOT {
+			return false
+		}
+		call, ok := ast.Unparen(u.X).(*ast.CallExpr)
+		return ok && calleeID(info, call) == "strings.HasPrefix"
+	}) {
+		if v != nil {
+			roles[v] = "noRoot"
+		}
+	}
+	// matches: appended with pth in the callback
+	ast.Inspect(cb.Body, func(nd ast.Node) bool {
+		if as, ok := nd.(*ast.AssignStmt); ok && len(as.Rhs) == 1 {
+			if call, ok := ast.Unparen(as.Rhs[0]).(*ast.CallExpr); ok && calleeID(info, call) == "builtin.append" && len(call.Args) == 2 && roleString(info, call.Args[1], roles) == "pth" {
+				if id, ok := as.Lhs[0].(*ast.Ident); ok {
+					roles[info.ObjectOf(id)] = "matches"
+				}
+			}
+			if call, ok := ast.Unparen(as.Rhs[0]).(*ast.CallExpr); ok && calleeID(info, call) == "strings.Index" {
+				if id, ok := as.Lhs[0].(*ast.Ident); ok {
+					roles[info.ObjectOf(id)] = "cut"
+				}
+			}
+		}
+		return true
+	})
+	// (1) the keep-branch of the callback
+	keep := ""
+	ast.Inspect(cb.Body, func(nd ast.Node) bool {
+		if ifs, ok := nd.(*ast.IfStmt); ok && roleString(info, ifs.Cond, roles) == "strings.HasPrefix(pth,prefix)" {
+			keep = roleStmts(info, ifs.Body.List, roles)
+		}
+		return true
+	})
+	wantKeep := "if delimiter!=\"\"&&len(pth)>len(prefix) {if cut:=strings.Index(pth[len(prefix):],delimiter); cut>-1 {pth=pth[0:len(prefix)+cut+1]}}; if noRoot {pth=strings.TrimPrefix(pth,\"/\")}; matches=append(matches,pth)"
+	c.check(keep == wantKeep, rule, f.ID+":keep", p.Pos(cb.Pos()), keep,
+		"a kept path is processed as ["+keep+"], expected ["+wantKeep+"]: with a delimiter a key must be cut just after the first delimiter past the prefix (immediate sub-prefix), a relative prefix yields relative keys, and the key is recorded")
+	// (2) dedupe and (3) token lookup: locate by the role of their conditions
+	var dedupe, lookup string
+	var walkBlock *ast.BlockStmt
+	ast.Inspect(f.Decl.Body, func(nd ast.Node) bool {
+		ifs, ok := nd.(*ast.IfStmt)
+		if !ok {
+			return true
+		}
+		cond := roleString(info, ifs.Cond, roles)
+		switch {
+		case cond == "delimiter!=\"\"" && !encloses(cb, ifs.Pos()):
+			// roles of the dedupe block: deduped = the slice assigned to matches; loops' variables by position
+			local := map[types.Object]string{}
+			for k, v := range roles {
+				local[k] = v
+			}
+			for _, st := range ifs.Body.List {
+				if as, ok := st.(*ast.AssignStmt); ok && len(as.Lhs) == 1 && len(as.Rhs) == 1 {
+					if roleString(info, as.Lhs[0], local) == "matches" {
+						if id, ok := ast.Unparen(as.Rhs[0]).(*ast.Ident); ok {
+							local[info.ObjectOf(id)] = "deduped"
+						}
+					}
+				}
+			}
+			depth := 0
+			ast.Inspect(ifs.Body, func(m ast.Node) bool {
+				if rs, ok := m.(*ast.RangeStmt); ok {
+					depth++
+					if id, ok := rs.Value.(*ast.Ident); ok {
+						local[info.ObjectOf(id)] = "v" + itoa(depth)
+					}
+				}
+				if as, ok := m.(*ast.AssignStmt); ok && as.Tok == token.DEFINE && len(as.Lhs) == 1 {
+					if _, isBool := isBoolConst(info, as.Rhs[0]); isBool {
+						if id, ok := as.Lhs[0].(*ast.Ident); ok {
+							local[info.ObjectOf(id)] = "dupe"
+						}
+					}
+				}
+				return true
+			})
+			dedupe = roleStmts(info, ifs.Body.List, local)
+			walkBlock, _ = f.parentOf(ifs).(*ast.BlockStmt)
+		case cond == "token==\"\"":
+			local := map[types.Object]string{}
+			for k, v := range roles {
+				local[k] = v
+			}
+			ast.Inspect(ifs, func(m ast.Node) bool {
+				if rs, ok := m.(*ast.RangeStmt); ok {
+					if id, ok := rs.Key.(*ast.Ident); ok {
+						local[info.ObjectOf(id)] = "i"
+					}
+					if id, ok := rs.Value.(*ast.Ident); ok {
+						local[info.ObjectOf(id)] = "v"
+					}
+					local[info.ObjectOf(ast.Unparen(rs.X).(*ast.Ident))] = "search"
+				}
+				if as, ok := m.(*ast.AssignStmt); ok && as.Tok == token.DEFINE && len(as.Lhs) == 1 {
+					if _, isBool := isBoolConst(info, as.Rhs[0]); isBool {
+						if id, ok := as.Lhs[0].(*ast.Ident); ok {
+							local[info.ObjectOf(id)] = "found"
+						}
+					}
+				}
+				return true
+			})
+			// start: the variable assigned 0 in the then-branch
+			for _, st := range ifs.Body.List {
+				if as, ok := st.(*ast.AssignStmt); ok && len(as.Lhs) == 1 {
+					if id, ok := as.Lhs[0].(*ast.Ident); ok {
+						local[info.ObjectOf(id)] = "start"
+					}
+				}
+			}
+			lookup = roleStmts(info, []ast.Stmt{ifs}, local)
+		}
+		return true
+	})
+	_ = walkBlock
+	wantDedupe := "deduped:=make([]string,0,len(matches)); for _,v1 range matches {dupe:=false; for _,v2 range deduped {if v1==v2 {dupe=true; break}}; if !dupe {deduped=append(deduped,v1)}}; matches=deduped"
+	c.check(dedupe == wantDedupe, rule, f.ID+":dedupe", p.Pos(f.Decl.Pos()), dedupe,
+		"truncated matches are de-duplicated as ["+dedupe+"], expected ["+wantDedupe+"]: with a delimiter each immediate sub-prefix must be listed once")
+	wantLookup := "if token==\"\" {start=0} else {found:=false; for i,v range search {if token!=v {continue}; found=true; start=i; break}; if !found {delete(l.glob,prefix); return []string{},\"\",nil}}"
+	c.check(lookup == wantLookup, rule, f.ID+":token", p.Pos(f.Decl.Pos()), lookup,
+		"the page start is found as ["+lookup+"], expected ["+wantLookup+"]: a listing resumed with the continuation token must start exactly at that key, whatever the page size")
 }
